@@ -67,6 +67,17 @@ _IR_CACHE = {}
 _MOD_CACHE = {}
 
 
+def prune_parse_cache(keep=40):
+    """the pickled parse cache is keyed by IR hash: every edit of /repo adds files; keep the newest ones only"""
+    d = os.path.join(BUILD, 'parse')
+    try:
+        fs = sorted((os.path.join(d, f) for f in os.listdir(d)), key=os.path.getmtime, reverse=True)
+        for f in fs[keep:]:
+            os.remove(f)
+    except OSError:
+        pass
+
+
 def load_ir(fset, profile, lto=False):
     """Build the IR from /repo's working tree and parse it, atomically with respect to other check processes."""
     key = (fset, profile, lto)
@@ -298,6 +309,7 @@ def run_property(pid, tier, seed):
     budget_s = spec.get('budget_s', {}).get(tier, 1800 if tier == 'quick' else 5400)
     deadline = t_start + budget_s
     known = load_known()
+    prune_parse_cache()
     results = []
     status = 0
     inconclusive = []
